@@ -13,7 +13,7 @@ import numpy as np
 
 from core import refmodels as R
 from core.canon import fingerprint
-from core.common import H, T0, fm, hrs
+from core.common import H, T0, fm, hrs, set_time_unit, time_unit_seconds
 from harness.sched import mk_adapter, tok_class, Shared
 
 E = fm.errors
@@ -34,9 +34,14 @@ class MOut(fm.Output):
 GRID2 = None
 
 
+PMASK = np.array([[False, True], [False, False]])
+
+
 def payload_value(kind, v):
     if kind == "scalar":
         return float(v)
+    if kind == "masked":
+        return np.ma.array(np.array([[1.0, 2.0], [3.0, 5.0]]) * float(v), mask=PMASK.copy(), fill_value=-9999.0)
     return np.array([[1.0, 2.0], [3.0, 5.0]]) * float(v)
 
 
@@ -47,6 +52,11 @@ def scalar_of(kind, d):
         return float(m.ravel()[0])
     base = np.array([[1.0, 2.0], [3.0, 5.0]])
     arr = m.reshape(m.shape[-2:]) if m.ndim >= 2 else m
+    if kind == "masked":
+        mm = d.magnitude if hasattr(d, "magnitude") else d
+        if not np.ma.isMaskedArray(mm) or not np.array_equal(np.ma.getmaskarray(mm).reshape(2, 2), PMASK):
+            return float("nan")  # the mask did not travel with the data
+        arr = np.where(PMASK, base * (np.ma.getdata(mm).reshape(2, 2)[0, 0]), np.ma.getdata(mm).reshape(2, 2))
     ratio = arr / base
     if not np.allclose(ratio, ratio.ravel()[0], rtol=1e-9, atol=1e-12):
         return float("nan")
@@ -180,6 +190,10 @@ class Cluster:
         if exp is not R.ANY and not any(R.close(e * scale, val) for e in exp):
             self.viol.append(("value", dict(kind="wrong_value", chain=cls), f"consumer {k} chain {chain} pull at {float(t)} got {val}, reference {sorted(float(x * scale) for x in exp)} (history {[(float(a), float(b)) for a, b in self.source.hist]})"))
         want_shape = (1,) if kind == "scalar" else (1, 2, 2)
+        if kind == "masked" and val != val:
+            self.viol.append(("mask", dict(kind="mask_lost_or_changed", chain=cls), f"consumer {k} chain {chain} pull at {float(t)}: result {type(got.magnitude).__name__} mask {np.ma.getmaskarray(got.magnitude).tolist()}"))
+            self.after_pull()
+            return
         if tuple(got.shape) != want_shape:
             self.viol.append(("shape", dict(kind="wrong_shape", chain=cls), f"consumer {k} result shape {got.shape} != {want_shape}"))
         self.after_pull()
@@ -230,14 +244,15 @@ class Cluster:
     def key(self):
         # Info._time (the declared start time of a slot) is only read while connecting; Output._time always equals the newest retained entry: neither is part of the post-connect state.
         # Other absolute times (start-time clamp of delay adapters) stop mattering once older than window + total delay + largest gap.
-        cut = (Fr(self.cfg.get("window", 4)) + Fr(self.cfg.get("dmax", 0)) + 3) * 3600
-        return fingerprint((self.out, self.inps, self.ads, self.source, self.links, self.last_gap, sorted((k, None if v is None else v - hrs(self.newest)) for k, v in self.req_src.items()), [None if l is None else l - hrs(self.newest) for l in self.last]), tnorm=(self.newest, int(cut)), skip_keys=frozenset(["_time"]))
+        cut = (Fr(self.cfg.get("window", 4)) + Fr(self.cfg.get("dmax", 0)) + 3) * time_unit_seconds()
+        return fingerprint((self.out, self.inps, self.ads, self.source, self.links, self.last_gap, sorted((k, None if v is None else v - hrs(self.newest)) for k, v in self.req_src.items()), [None if l is None else l - hrs(self.newest) for l in self.last]), tnorm=(self.newest, float(cut)), skip_keys=frozenset(["_time"]))
 
 
 def explore(cfg, max_depth=None, max_states=200000, max_seconds=None):
     import time as _time
 
     t_start = _time.time()
+    set_time_unit(cfg.get("unit_us", 3600 * 10**6))
     c0 = Cluster(cfg)
     seen = {c0.key()}
     q = collections.deque([(c0, [], 0)])
@@ -277,6 +292,7 @@ def explore(cfg, max_depth=None, max_states=200000, max_seconds=None):
 
 
 def run_path(cfg, path):
+    set_time_unit(cfg.get("unit_us", 3600 * 10**6))
     c = Cluster(cfg)
     out = []
     for ev in path:
